@@ -148,6 +148,15 @@ impl Deserializable for Context {
         // read options
         let options = ProofOptions::read_from(source)?;
 
+        // enforce the same limits as the constructor so that domain sizes cannot overflow
+        let trace_length = trace_info.length();
+        let lde_domain_size = trace_length.checked_mul(options.blowup_factor());
+        if lde_domain_size.map_or(true, |size| size > u32::MAX as usize) {
+            return Err(DeserializationError::InvalidValue(
+                "trace length or LDE domain size is too big".to_string(),
+            ));
+        }
+
         Ok(Context { trace_info, field_modulus_bytes, options })
     }
 }
